@@ -112,9 +112,9 @@ class _BinaryOpAccumulatorNumpy(Accumulator):
     def _accumulate_obj(self, obj):
         self._n += 1
         if self.acc is None:
-            self.acc = np.asarray(obj)
+            self.acc = np.array(obj)
             return
-        self.__class__._operator(self.acc, obj, out=self.acc)
+        self.acc = self.__class__._operator(self.acc, obj)
 
     def _accumulate_other(self, other):
         self.__class__._operator(self.acc, other.acc, out=self.acc)
